@@ -12,20 +12,31 @@ Section FineProofs.
 Variables S E V : Type.
 Variable init : S.
 Variable step : S -> E -> S * list V.
+Variable restore : S -> S.
+
+(* decode . encode need not be the identity: it is enough that a restored state is equivalent to the
+   encoded one for an equivalence that the machine respects and that preserves the attested votes
+   (for the agreement machine: C07, "restore is the identity on the observables") *)
+Variable eqv : S -> S -> Prop.
+Hypothesis eqv_refl : forall s, eqv s s.
+Hypothesis eqv_trans : forall a b c, eqv a b -> eqv b c -> eqv a c.
+Hypothesis eqv_step : forall s s' e, eqv s s' ->
+  snd (step s e) = snd (step s' e) /\ eqv (fst (step s e)) (fst (step s' e)).
+Hypothesis eqv_restore : forall s, eqv (restore s) s.
 
 Local Notation state_of := (Durable.state_of S E V step).
 Local Notation run_votes := (Durable.run_votes S E V step).
 Local Notation dstep := (Durable.dstep S E V init step true).
 Local Notation drun := (Durable.drun S E V init step true).
-Local Notation fstep := (DurableFine.fstep S E V init step).
-Local Notation frun := (DurableFine.frun S E V init step).
+Local Notation fstep := (DurableFine.fstep S E V init step restore).
+Local Notation frun := (DurableFine.frun S E V init step restore).
 Local Notation fstate := (DurableFine.fstate S E V).
 Local Notation dstate := (Durable.dstate E V).
 Local Notation fsnap := (DurableFine.fsnap S E V).
 Local Notation coarsen := (DurableFine.coarsen E).
 
 Definition snap_rel (fs : fsnap) (ds : Durable.snapshot E V) : Prop :=
-  match fs with (p, s, vs) => ds = Snap E V p vs /\ s = state_of init p end.
+  match fs with (p, s, vs) => ds = Snap E V p vs /\ eqv s (state_of init p) end.
 
 Definition disk_rel (fd : option fsnap) (dd : option (Durable.snapshot E V)) : Prop :=
   match fd, dd with
@@ -39,7 +50,7 @@ Definition q_rel (a : fsnap * list V) (b : Durable.snapshot E V * list V) : Prop
 
 Record Sim (f : fstate) (d : dstate) : Prop := {
   sim_path : f_path S E V f = path E V d;
-  sim_st : f_st S E V f = state_of init (f_path S E V f);
+  sim_st : eqv (f_st S E V f) (state_of init (f_path S E V f));
   sim_disk : disk_rel (f_disk S E V f) (disk E V d);
   sim_queue : Forall2 q_rel (f_queue S E V f) (queue E V d);
   sim_await : forall vs, In (true, vs) (f_await S E V f) -> incl vs (released E V d);
@@ -52,33 +63,40 @@ Lemma sim_step f d o : Sim f d -> Sim (fstep f o) (fold_left dstep (coarsen o) d
 Proof.
   intros [Hp Hs Hd Hq Ha Hr]. destruct o as [e|ok| |]; cbn [DurableFine.coarsen fold_left].
   - (* FEv *)
-    cbn [DurableFine.fstep Durable.dstep]. rewrite <- Hp, <- Hs.
+    cbn [DurableFine.fstep Durable.dstep]. rewrite <- Hp.
+    destruct (eqv_step _ _ e Hs) as [Hv Hn].
     destruct (step (f_st S E V f) e) as [s' vs] eqn:Es.
+    destruct (step (state_of init (f_path S E V f)) e) as [s'' vs''] eqn:Es'.
+    cbn in Hv, Hn. subst vs''.
+    assert (Hn' : eqv s' (state_of init (f_path S E V f ++ [e]))).
+    { rewrite state_of_snoc, Es'. exact Hn. }
     constructor; cbn.
-    + rewrite Hp. reflexivity.
-    + rewrite state_of_snoc, <- Hs, Es. reflexivity.
+    + reflexivity.
+    + exact Hn'.
     + exact Hd.
     + destruct vs as [|v0 vs]; [exact Hq|].
       apply Forall2_app; [exact Hq|]. constructor; [|constructor].
-      split; cbn; [|reflexivity]. split; [rewrite Hp; reflexivity|].
-      rewrite state_of_snoc, <- Hs, Es. reflexivity.
+      split; cbn; [|reflexivity]. split; [reflexivity|exact Hn'].
     + exact Ha.
     + exact Hr.
   - (* FWrite *)
     cbn [DurableFine.fstep].
-    destruct ok; cbn [fold_left Durable.dstep].
-    + inversion Hq as [Ef Ed|[fs vs] [ds vs'] qf qd [H1 H2] Hq' Ef Ed]; cbn in *.
-      * constructor; cbn; try rewrite <- Ef, <- Ed; auto. rewrite <- Ef. exact Hs.
-      * subst vs'. constructor; cbn; auto.
-        -- destruct fs as [[p s] ws]. exact H1.
-        -- intros ws Hin. apply in_app_or in Hin. destruct Hin as [Hin|[Hin|[]]].
+    assert (Hcase : (f_queue S E V f = [] /\ queue E V d = []) \/
+                    exists p s ws vs qf qd, f_queue S E V f = ((p, s, ws), vs) :: qf /\
+                       queue E V d = (Snap E V p ws, vs) :: qd /\ eqv s (state_of init p) /\ Forall2 q_rel qf qd).
+    { inversion Hq as [|[[[p s] ws] vs] [ds vs'] qf qd [[H1 H1'] H2] Hq']; [left; auto|right].
+      cbn in H1, H1', H2. subst. exists p, s, ws, vs', qf, qd. auto. }
+    destruct Hcase as [[Ef Ed]|(p & s & ws & vs & qf & qd & Ef & Ed & Es & Hq')].
+    + rewrite Ef. destruct ok; cbn [fold_left Durable.dstep]; rewrite Ed;
+        (constructor; auto; rewrite ?Ef, ?Ed; auto).
+    + rewrite Ef. destruct ok; cbn [fold_left Durable.dstep]; rewrite Ed.
+      * constructor; cbn; auto.
+        -- intros us Hin. apply in_app_or in Hin. destruct Hin as [Hin|[Hin|[]]].
            ++ apply incl_appl. apply Ha. exact Hin.
            ++ injection Hin as <-. apply incl_appr. apply incl_refl.
         -- apply incl_appl. exact Hr.
-    + inversion Hq as [Ef Ed|[fs vs] [ds vs'] qf qd [H1 H2] Hq' Ef Ed]; cbn in *.
-      * constructor; cbn; try rewrite <- Ef, <- Ed; auto. rewrite <- Ef. exact Hs.
       * constructor; cbn; auto.
-        intros ws Hin. apply in_app_or in Hin. destruct Hin as [Hin|[Hin|[]]]; [auto|discriminate].
+        intros us Hin. apply in_app_or in Hin. destruct Hin as [Hin|[Hin|[]]]; [auto|discriminate].
   - (* FRelease *)
     cbn [DurableFine.fstep]. destruct (f_await S E V f) as [|[ok vs] a] eqn:Ea.
     + constructor; auto. rewrite Ea. exact Ha.
@@ -88,13 +106,14 @@ Proof.
   - (* FCrash *)
     cbn [DurableFine.fstep Durable.dstep fold_left]. unfold disk_rel in Hd.
     destruct (f_disk S E V f) as [[[p s] vs]|] eqn:Ef; destruct (disk E V d) as [ds|] eqn:Ed; try contradiction.
-    + destruct Hd as [-> ->]. constructor; cbn; auto.
-      * rewrite Ef, Ed. cbn. auto.
-      * constructor; [|constructor]. split; cbn; auto.
-      * intros ws [].
-    + constructor; cbn; auto.
-      * rewrite Ed. exact I.
-      * intros ws [].
+    + destruct Hd as [-> Hes].
+      assert (Her : eqv (restore s) (state_of init p)) by (eapply eqv_trans; [apply eqv_restore|exact Hes]).
+      constructor; cbn; auto;
+        first [ now (rewrite ?Ef, ?Ed; cbn; auto)
+              | now (constructor; [|constructor]; split; cbn; auto)
+              | now (intros ws []) ].
+    + constructor; cbn; auto;
+        first [ now (rewrite ?Ef, ?Ed; exact I) | now (intros ws []) ].
 Qed.
 
 Lemma sim_fold ops : forall f d, Sim f d ->
@@ -114,7 +133,7 @@ Proof. apply sim_fold. exact sim_init. Qed.
 (* released votes were attested along the single run whose snapshot is on disk *)
 Theorem fine_released_after_persist ops v :
   In v (f_released S E V (frun ops)) ->
-  exists p s vs, f_disk S E V (frun ops) = Some (p, s, vs) /\ s = state_of init p /\ In v (run_votes init p).
+  exists p s vs, f_disk S E V (frun ops) = Some (p, s, vs) /\ eqv s (state_of init p) /\ In v (run_votes init p).
 Proof.
   intros Hv. destruct (fine_refines ops) as [_ _ Hd _ _ Hr].
   apply Hr in Hv. destruct (released_after_persist S E V init step _ _ Hv) as [dp [dvs [Ed Hin]]].
